@@ -99,6 +99,34 @@ def comb(a, g):
 '''
 
 
+CFG_EVENTS = ("default", "configs")
+BL_EVENTS = ("blacklist", "context", "topersist")
+
+
+def split_events(case, events, comps):
+    """Three traces per case - apply_default_enabled + apply_configs from the manifest; apply_blacklist,
+    create_context, get_to_persist from the ENABLED table observed after apply_configs; the run from the
+    configuration observed after those - so that a deviation in one part does not hide the others from the
+    validation.  Pure data shuffling (also used by p_collectrun for a run that had to be killed)."""
+    cfg = [e for e in events if e["ev"] in CFG_EVENTS]
+    bl = [e for e in events if e["ev"] in BL_EVENTS]
+    rest = [e for e in events if e["ev"] not in CFG_EVENTS + BL_EVENTS]
+    head = dict(case=dict(mf=case["mf"], env=case["env"], pre=case["pre"]), raw=bool(case.get("raw")))
+    none = dict(enabled=dict((c, True) for c in comps), files=[], commands=[], specs=[], set=[])
+    end = [dict(ev="end")]
+    if len(cfg) < 2:                # collect() did not get through apply_configs
+        return [dict(head, id=case["id"] + "/cfg", seg="cfg", obs=none, events=cfg + bl + rest + end)]
+    out = [dict(head, id=case["id"] + "/cfg", seg="cfg", obs=none, events=cfg + end)]
+    obs = dict(none, enabled=cfg[1]["enabled"])
+    if len(bl) < 3:
+        return out + [dict(head, id=case["id"] + "/bl", seg="bl", obs=obs, events=bl + rest + end)]
+    out.append(dict(head, id=case["id"] + "/bl", seg="bl", obs=obs, events=bl + end))
+    obs = dict(enabled=bl[0]["enabled"], files=bl[0]["files"], commands=bl[0]["commands"], specs=bl[0]["specs"],
+               set=bl[2]["set"])
+    out.append(dict(head, id=case["id"] + "/run", seg="run", obs=obs, events=rest + end))
+    return out
+
+
 class Refused(RuntimeError):
     pass
 
@@ -621,22 +649,10 @@ class Runner(object):
             self.stats["tar"] += int(form == "tar")
             self.stats["pooled"] += int(bool(self.cur.get("pooled")))
         shutil.rmtree(tmp, True)
-        return self.split(case, self.events)
+        return self.split(case, self.events, escaped is None)
 
-    def split(self, case, events):
-        """two traces per case: the configuration phases, and the run from the OBSERVED configuration"""
-        cfg = [e for e in events if e["ev"] in ("default", "configs", "blacklist", "context", "topersist")]
-        rest = [e for e in events if e not in cfg]
-        head = dict(case=dict(mf=case["mf"], env=case["env"], pre=case["pre"]), raw=bool(case.get("raw")))
-        out = [dict(head, id=case["id"] + "/cfg", seg="cfg", obs=self.no_obs(), events=cfg + [e for e in rest if e["ev"] == "escaped" and len(cfg) < 5])]
-        if len(cfg) == 5:
-            bl, tp = cfg[2], cfg[4]
-            obs = dict(enabled=bl["enabled"], files=bl["files"], commands=bl["commands"], specs=bl["specs"], set=tp["set"])
-            out.append(dict(head, id=case["id"] + "/run", seg="run", obs=obs, events=rest))
-        return out
-
-    def no_obs(self):
-        return dict(enabled=dict((c, True) for c in self.names), files=[], commands=[], specs=[], set=[])
+    def split(self, case, events, complete=True):
+        return split_events(case, events, sorted(self.names))
 
 
 def main():
